@@ -214,6 +214,24 @@ struct GuardBuf {
         memset(base + GUARD, 0, bytes);
         memset(base + GUARD + bytes, GUARD_BYTE, GUARD);
     }
+    // output buffer: ends at an inaccessible page (constmem.h outAlloc); leading guard bytes as usual, the
+    // (at most 15) slack bytes before the fence page are guard bytes too
+    size_t tail = GUARD;
+    void initOut(size_t bytes, uint8_t fill = 0) {
+        size_t slack = 0;
+        void *m = outAlloc(bytes + GUARD, &slack);
+        if (!m) {
+            init(bytes, fill);
+            return;
+        }
+        fromConst = true;  // not from malloc
+        n = bytes;
+        base = (uint8_t *)m;
+        tail = slack;
+        memset(base, GUARD_BYTE, GUARD);
+        memset(base + GUARD, fill, bytes);
+        memset(base + GUARD + bytes, GUARD_BYTE, tail);
+    }
     ~GuardBuf() {
         if (!fromConst) free(base);
     }
@@ -227,8 +245,9 @@ struct GuardBuf {
     bool ok() const {
         if (!base) return true;
         for (size_t i = 0; i < GUARD; i++)
-            if (base[i] != GUARD_BYTE || base[GUARD + n + i] != GUARD_BYTE)
-                return false;
+            if (base[i] != GUARD_BYTE) return false;
+        for (size_t i = 0; i < tail; i++)
+            if (base[GUARD + n + i] != GUARD_BYTE) return false;
         return true;
     }
 };
@@ -652,20 +671,20 @@ Result execOp(const H3Api &api, const Op &op, const ExecOpts &opts) {
             c.d[0] = argD(op, 0);
             c.d[1] = argD(op, 1);
             c.i0 = clampInt(argI(op, 0));
-            B0.init(8);
+            B0.initOut(8);
             break;
         case FN_cellToLatLng:
         case FN_vertexToLatLng:
-            B0.init(sizeof(LatLng));
+            B0.initOut(sizeof(LatLng));
             break;
         case FN_cellToBoundary:
         case FN_directedEdgeToBoundary:
-            B0.init(sizeof(CellBoundary));
+            B0.initOut(sizeof(CellBoundary));
             break;
         case FN_maxGridDiskSize:
         case FN_getNumCells:
             c.i0 = clampInt(argI(op, 0));
-            B0.init(8);
+            B0.initOut(8);
             break;
         case FN_gridDiskUnsafe:
         case FN_gridDisk:
@@ -680,12 +699,12 @@ Result execOp(const H3Api &api, const Op &op, const ExecOpts &opts) {
                 break;
             }
             n0 = (size_t)sz;
-            B0.init(n0 * sizeof(H3Index));
+            B0.initOut(n0 * sizeof(H3Index));
             bool withDist = argI(op, 1, 0) != 0 ||
                             op.fn == FN_gridDiskDistancesSafe;
             if (op.fn != FN_gridDiskUnsafe && op.fn != FN_gridDisk && withDist) {
                 n1 = n0;
-                B1.init(n1 * sizeof(int));
+                B1.initOut(n1 * sizeof(int));
             }
             break;
         }
@@ -697,7 +716,7 @@ Result execOp(const H3Api &api, const Op &op, const ExecOpts &opts) {
                 break;
             }
             n0 = (size_t)sz;
-            B0.init(n0 * sizeof(H3Index));
+            B0.initOut(n0 * sizeof(H3Index));
             break;
         }
         case FN_gridDisksUnsafe: {
@@ -711,7 +730,7 @@ Result execOp(const H3Api &api, const Op &op, const ExecOpts &opts) {
             }
             setInCells();
             n0 = (size_t)sz * std::max<size_t>(op.cells.size(), 1);
-            B0.init(n0 * sizeof(H3Index));
+            B0.initOut(n0 * sizeof(H3Index));
             break;
         }
         case FN_maxPolygonToCellsSize:
@@ -719,7 +738,7 @@ Result execOp(const H3Api &api, const Op &op, const ExecOpts &opts) {
             buildPoly();
             c.i0 = clampInt(argI(op, 0));
             c.u0 = (uint32_t)argI(op, 1);
-            B0.init(8);
+            B0.initOut(8);
             break;
         case FN_polygonToCells: {
             buildPoly();
@@ -734,7 +753,7 @@ Result execOp(const H3Api &api, const Op &op, const ExecOpts &opts) {
                 break;
             }
             n0 = (size_t)sz;
-            B0.init(n0 * sizeof(H3Index));
+            B0.initOut(n0 * sizeof(H3Index));
             if (int64_t dirty = argI(op, 2, 0)) {
                 // caller passes an output array that is not zero-filled (see gen.cc "+dirty-out")
                 H3Index *o = B0.as<H3Index>();
@@ -753,13 +772,13 @@ Result execOp(const H3Api &api, const Op &op, const ExecOpts &opts) {
                 break;
             }
             n0 = c.l0 > 0 ? (size_t)c.l0 : 0;
-            B0.init(n0 * sizeof(H3Index) + 8);
+            B0.initOut(n0 * sizeof(H3Index) + 8);
             break;
         }
         case FN_cellsToLinkedMultiPolygon:
             setInCells();
             c.i0 = (int)op.cells.size();
-            B0.init(sizeof(LinkedGeoPolygon));
+            B0.initOut(sizeof(LinkedGeoPolygon));
             R.out.reserve(4096);
             break;
         case FN_destroyLinkedMultiPolygon:
@@ -781,7 +800,7 @@ Result execOp(const H3Api &api, const Op &op, const ExecOpts &opts) {
         case FN_getHexagonEdgeLengthAvgKm:
         case FN_getHexagonEdgeLengthAvgM:
             c.i0 = clampInt(argI(op, 0));
-            B0.init(8);
+            B0.initOut(8);
             break;
         case FN_cellAreaRads2:
         case FN_cellAreaKm2:
@@ -789,7 +808,7 @@ Result execOp(const H3Api &api, const Op &op, const ExecOpts &opts) {
         case FN_edgeLengthRads:
         case FN_edgeLengthKm:
         case FN_edgeLengthM:
-            B0.init(8);
+            B0.initOut(8);
             break;
         case FN_res0CellCount:
         case FN_pentagonCount:
@@ -804,12 +823,12 @@ Result execOp(const H3Api &api, const Op &op, const ExecOpts &opts) {
             break;
         case FN_getRes0Cells:
             n0 = 122;
-            B0.init(n0 * 8);
+            B0.initOut(n0 * 8);
             break;
         case FN_getPentagons:
             c.i0 = clampInt(argI(op, 0));
             n0 = 12;
-            B0.init(n0 * 8);
+            B0.initOut(n0 * 8);
             break;
         case FN_stringToH3:
             c.s = op.str.c_str();
@@ -818,14 +837,14 @@ Result execOp(const H3Api &api, const Op &op, const ExecOpts &opts) {
                 memcpy(strBuf.p(), op.str.c_str(), op.str.size() + 1);
                 c.s = strBuf.as<char>();
             }
-            B0.init(8);
+            B0.initOut(8);
             break;
         case FN_h3ToString: {
             int64_t sz = argI(op, 0, 17);
             if (sz < 0) sz = 0;
             if (sz > 4096) sz = 4096;
             c.sz = (size_t)sz;
-            B0.init(c.sz + 1, 0x7e);
+            B0.initOut(c.sz + 1, 0x7e);
             break;
         }
         case FN_cellToParent:
@@ -833,7 +852,7 @@ Result execOp(const H3Api &api, const Op &op, const ExecOpts &opts) {
         case FN_cellToChildrenSize:
         case FN_cellToChildPos:
             c.i0 = clampInt(argI(op, 0));
-            B0.init(8);
+            B0.initOut(8);
             break;
         case FN_cellToChildren: {
             c.i0 = clampInt(argI(op, 0));
@@ -847,25 +866,25 @@ Result execOp(const H3Api &api, const Op &op, const ExecOpts &opts) {
                 break;
             }
             n0 = (size_t)sz;
-            B0.init(n0 * 8 + 8);
+            B0.initOut(n0 * 8 + 8);
             break;
         }
         case FN_childPosToCell:
             c.l0 = argI(op, 0);
             c.i0 = clampInt(argI(op, 1));
-            B0.init(8);
+            B0.initOut(8);
             break;
         case FN_compactCells:
             setInCells();
             c.l0 = (int64_t)op.cells.size();
             n0 = op.cells.size();
-            B0.init(n0 * 8 + 8);
+            B0.initOut(n0 * 8 + 8);
             break;
         case FN_uncompactCellsSize:
             setInCells();
             c.l0 = (int64_t)op.cells.size();
             c.i0 = clampInt(argI(op, 0));
-            B0.init(8);
+            B0.initOut(8);
             break;
         case FN_uncompactCells: {
             setInCells();
@@ -877,44 +896,44 @@ Result execOp(const H3Api &api, const Op &op, const ExecOpts &opts) {
                 break;
             }
             n0 = (size_t)c.l1;
-            B0.init(n0 * 8 + 8);
+            B0.initOut(n0 * 8 + 8);
             break;
         }
         case FN_maxFaceCount:
-            B0.init(sizeof(int));
+            B0.initOut(sizeof(int));
             break;
         case FN_getIcosahedronFaces: {
             int mf = 0;
             if (REF.maxFaceCount(c.c0, &mf) != E_SUCCESS || mf < 1 || mf > 20)
                 mf = 5;
             n0 = (size_t)mf;
-            B0.init(n0 * sizeof(int));
+            B0.initOut(n0 * sizeof(int));
             break;
         }
         case FN_areNeighborCells:
-            B0.init(sizeof(int));
+            B0.initOut(sizeof(int));
             break;
         case FN_cellsToDirectedEdge:
         case FN_getDirectedEdgeOrigin:
         case FN_getDirectedEdgeDestination:
-            B0.init(8);
+            B0.initOut(8);
             break;
         case FN_directedEdgeToCells:
             n0 = 2;
-            B0.init(16);
+            B0.initOut(16);
             break;
         case FN_originToDirectedEdges:
         case FN_cellToVertexes:
             n0 = 6;
-            B0.init(48);
+            B0.initOut(48);
             break;
         case FN_cellToVertex:
             c.i0 = clampInt(argI(op, 0));
-            B0.init(8);
+            B0.initOut(8);
             break;
         case FN_gridDistance:
         case FN_gridPathCellsSize:
-            B0.init(8);
+            B0.initOut(8);
             break;
         case FN_gridPathCells: {
             int64_t sz = 0;
@@ -925,18 +944,18 @@ Result execOp(const H3Api &api, const Op &op, const ExecOpts &opts) {
                 break;
             }
             n0 = (size_t)sz;
-            B0.init(n0 * 8);
+            B0.initOut(n0 * 8);
             break;
         }
         case FN_cellToLocalIj:
             c.u0 = (uint32_t)argI(op, 0);
-            B0.init(sizeof(CoordIJ));
+            B0.initOut(sizeof(CoordIJ));
             break;
         case FN_localIjToCell:
             c.i0 = clampInt(argI(op, 0));
             c.i1 = clampInt(argI(op, 1));
             c.u0 = (uint32_t)argI(op, 2);
-            B0.init(8);
+            B0.initOut(8);
             break;
         default:
             skip = true;
@@ -945,6 +964,7 @@ Result execOp(const H3Api &api, const Op &op, const ExecOpts &opts) {
         R.skipped = true;
         for (auto *b : loopBufs) delete b;
         if (seal) constUnsealOp();
+        outReleaseOp();
         return R;
     }
     c.b0 = B0.p();
@@ -1059,5 +1079,6 @@ Result execOp(const H3Api &api, const Op &op, const ExecOpts &opts) {
     }
     for (auto *b : loopBufs) delete b;
     if (seal) constUnsealOp();
+    outReleaseOp();
     return R;
 }
